@@ -156,12 +156,15 @@ impl Check for Preserve {
     }
 }
 
+pub const E2E: super::e2e::EndToEnd = super::e2e::EndToEnd { part: "end-to-end-binary-vs-handler", methods: &["textDocument/formatting"] };
+
 pub fn checks() -> Vec<Box<dyn Check>> {
-    vec![Box::new(Preserve)]
+    vec![Box::new(Preserve), Box::new(E2E)]
 }
 
 pub fn run(ctx: &Ctx) -> i32 {
-    let parts = vec![crate::corpus_part(ctx, &checks()), run_pbt(ctx, &Preserve, ctx.n(20_000, 300_000))];
+    let mut parts = vec![crate::corpus_part(ctx, &checks()), run_pbt(ctx, &Preserve, ctx.n(20_000, 300_000))];
+    parts.push(run_pbt(ctx, &E2E, ctx.n(400, 8_000)));
     finish(
         ctx,
         parts,
